@@ -1291,6 +1291,8 @@ impl Handler {
             // the request that was used to re-establish the session handshake.
             self.replay_active_requests(&node_address, message_nonce)
                 .await;
+            // Requests may have been queued behind the challenge that led to this session.
+            self.send_pending_requests(&node_address).await;
         } else {
             self.sessions.insert(node_address.clone(), session);
             METRICS
